@@ -359,7 +359,9 @@ func init() {
 		Assumptions: []string{"label/value assignments are covered by rotations, not the full product", "CBOR tagged values as attribute values are not generated"},
 		Init:        func(mc.Tier) (int, error) { envFix.init(); return len(envFix.chains), nil },
 		Scenarios:   c13Scenarios,
-		Alphabet:    func(mc.Tier) map[string]int { return map[string]int{"labels": len(c13Labels), "values": len(c13Values), "max_attributes": 6, "integer_literals": len(c13Ints)} },
+		Alphabet: func(mc.Tier) map[string]int {
+			return map[string]int{"labels": len(c13Labels), "values": len(c13Values), "max_attributes": 6, "integer_literals": len(c13Ints)}
+		},
 		Guards: func(s *mc.Stats, t mc.Tier) []string {
 			var w []string
 			for _, o := range []string{"verify=true content=true", "verify=false content=false"} {
